@@ -225,6 +225,95 @@ func c07Insert(c *Ctx, p *Prog) {
 	var okMove, okLen bool
 	var sawCopy, dstKnown, srcKnown bool
 	var dstOff, srcPlus int64
+	var sawLen, lenKnown bool
+	var lenPlus, lenPly int64
+	// plyOffset: v is ply+k
+	plyOffset := func(v ssa.Value) (int64, bool) {
+		v = stripConv(v)
+		if v == ssa.Value(ply) {
+			return 0, true
+		}
+		if bo, ok := v.(*ssa.BinOp); ok && bo.Op == token.ADD && stripConv(bo.X) == ssa.Value(ply) {
+			if k, isc := constOf(bo.Y); isc {
+				return k, true
+			}
+		}
+		return 0, false
+	}
+	// lineLenOf: v is the length of the line stored for ply+k: depth[ply+k], or len(h(ply+k)) with h handing out
+	// moves[bufIx(q) : bufIx(q)+depth[q]] for its parameter q
+	var lineLenOf func(v ssa.Value) (int64, bool)
+	lineLenOf = func(v ssa.Value) (int64, bool) {
+		v = stripConv(v)
+		if l, ok := v.(*ssa.UnOp); ok && l.Op == token.MUL {
+			if ia2, ok := l.X.(*ssa.IndexAddr); ok {
+				if fr, ok := asFieldAddr(ia2.X); ok && fr.Name() == "pv.depth" {
+					return plyOffset(ia2.Index)
+				}
+			}
+		}
+		call, ok := v.(*ssa.Call)
+		if !ok {
+			return 0, false
+		}
+		bi, isB := call.Call.Value.(*ssa.Builtin)
+		if !isB || bi.Name() != "len" {
+			return 0, false
+		}
+		hc, ok := stripConv(call.Call.Args[0]).(*ssa.Call)
+		if !ok {
+			return 0, false
+		}
+		h := hc.Call.StaticCallee()
+		if h == nil || !isOwn(h) || h.Blocks == nil {
+			return 0, false
+		}
+		as := resultAssignments(h, 0)
+		if len(as) != 1 {
+			return 0, false
+		}
+		sl, ok := as[0].Val.(*ssa.Slice)
+		if !ok || sl.High == nil {
+			return 0, false
+		}
+		// High - Low == depth[q]
+		var lenV ssa.Value
+		if sl.Low == nil {
+			lenV = sl.High
+		} else if hb, ok := stripConv(sl.High).(*ssa.BinOp); ok && hb.Op == token.ADD {
+			for _, pr := range [][2]ssa.Value{{hb.X, hb.Y}, {hb.Y, hb.X}} {
+				if sameValue(pr[0], sl.Low, 0) {
+					lenV = pr[1]
+				}
+			}
+		}
+		if lenV == nil {
+			return 0, false
+		}
+		ld, ok := stripConv(lenV).(*ssa.UnOp)
+		if !ok || ld.Op != token.MUL {
+			return 0, false
+		}
+		ia2, ok := ld.X.(*ssa.IndexAddr)
+		if !ok {
+			return 0, false
+		}
+		if fr, ok := asFieldAddr(ia2.X); !ok || fr.Name() != "pv.depth" {
+			return 0, false
+		}
+		for pi, par := range h.Params {
+			if stripConv(ia2.Index) == ssa.Value(par) && pi < len(hc.Call.Args) {
+				if sl.Low == nil {
+					// moves[0:depth[q]] is the line of ply 0 only
+					if k, isc := constOf(hc.Call.Args[pi]); !isc || k != 0 {
+						return 0, false
+					}
+				}
+				return plyOffset(hc.Call.Args[pi])
+			}
+		}
+		return 0, false
+	}
 	allInstrs(fn, func(in ssa.Instruction) {
 		switch x := in.(type) {
 		case *ssa.Store:
@@ -243,19 +332,21 @@ func c07Insert(c *Ctx, p *Prog) {
 				}
 			case "pv.depth":
 				if stripConv(ia.Index) == ssa.Value(ply) {
-					if bo, ok := stripConv(x.Val).(*ssa.BinOp); ok && bo.Op == token.ADD {
-						if k, isc := constOf(bo.Y); isc && k == 1 {
-							if l, ok := stripConv(bo.X).(*ssa.UnOp); ok && l.Op == token.MUL {
-								if ia2, ok := l.X.(*ssa.IndexAddr); ok {
-									if b2, ok := stripConv(ia2.Index).(*ssa.BinOp); ok && b2.Op == token.ADD && stripConv(b2.X) == ssa.Value(ply) {
-										if k2, isc := constOf(b2.Y); isc && k2 == 1 {
-											okLen = true
-										}
-									}
+					sawLen = true
+					v := stripConv(x.Val)
+					if k, ok := lineLenOf(v); ok {
+						// the child's length without the +1 (or some other line's length)
+						lenKnown, lenPlus, lenPly = true, 0, k
+					} else if bo, ok := v.(*ssa.BinOp); ok && bo.Op == token.ADD {
+						for _, pr := range [][2]ssa.Value{{bo.X, bo.Y}, {bo.Y, bo.X}} {
+							if c1, isc := constOf(pr[1]); isc {
+								if k, ok := lineLenOf(stripConv(pr[0])); ok {
+									lenKnown, lenPlus, lenPly = true, c1, k
 								}
 							}
 						}
 					}
+					okLen = lenKnown && lenPlus == 1 && lenPly == 1
 				}
 			}
 		case *ssa.Call:
@@ -317,7 +408,26 @@ func c07Insert(c *Ctx, p *Prog) {
 	default:
 		c.Fail(rule, "insert#copy-child-line", fn.Pos(), "insert copies the line stored for ply+%d to bufIx(ply)+%d; the child's line (ply+1) belongs behind the move at bufIx(ply)+1", srcPlus, dstOff)
 	}
-	c.Check(okLen, rule, "insert#length", fn.Pos(), "insert records depth[ply] = depth[ply+1] + 1")
+	switch {
+	case okLen:
+		c.Ok(rule, "insert#length", fn.Pos(), "insert records depth[ply] = depth[ply+1] + 1")
+	case !sawLen:
+		viaHelper := false
+		for _, f := range p.closure([]*ssa.Function{fn}, nil) {
+			if f != fn && len(directEffects(f).FieldWrites["search.pv.depth"]) > 0 {
+				viaHelper = true
+			}
+		}
+		if viaHelper {
+			c.Undec(rule, "insert#length", fn.Pos(), "insert records the new length through a helper; the form is not decided")
+		} else {
+			c.Fail(rule, "insert#length", fn.Pos(), "insert never records the new length in depth[ply]")
+		}
+	case !lenKnown:
+		c.Undec(rule, "insert#length", fn.Pos(), "the length insert records in depth[ply] is not of a recognised form (depth[ply+1] + 1, or the length of the child's line + 1)")
+	default:
+		c.Fail(rule, "insert#length", fn.Pos(), "insert records depth[ply] = (length of the line stored for ply+%d) + %d; the new line is the move followed by the child's line: depth[ply+1] + 1", lenPly, lenPlus)
+	}
 	// buffer sizes
 	pk := p.Pkg("search")
 	mp, ok := p.pkgConstInt("chess.MaxPlies")
